@@ -74,7 +74,10 @@ def gen_target(rng, X, kind, T=2):
             y[0] = -y[0]
         return y
     if kind == "count":
-        return rng.poisson(np.exp(np.clip(0.5 * u, -2, 2))).astype(float)
+        yc = rng.poisson(np.exp(np.clip(0.5 * u, -2, 2))).astype(float)
+        if not np.any(yc > 0):
+            yc[int(rng.integers(n))] = 1.0      # all-zero counts have no finite maximum likelihood
+        return yc
     if kind == "pos":
         return sig3(np.exp(np.clip(0.5 * u, -2, 2)) * rng.gamma(2.0, 0.5, n) + 0.05, 5)
     if kind == "surv":
